@@ -18,6 +18,7 @@
     flat_cache_inv_initial flat_cache_inv_preserved flat_cache_inv flat_cache_entry_bindings_only
     flatten_cache_irrelevant_full flatten_cached_is_xml_flatten flat_cache_stale_entry_violates_inv
     flat_cache_typed_key_collision_witness ser_cache_irrelevant_full lite_flatten_is_xml_flatten
+    render_full_cache_irrelevant render_full_extends_render
 -/
 import Genshi.Lemmas.Output
 import Genshi.Lemmas.OutputFlatten
@@ -30,6 +31,7 @@ import Genshi.Lemmas.OutputFlattenCacheC
 import Genshi.Lemmas.OutputFlattenLiteFull
 import Genshi.Model.OutputPipeline
 import Genshi.Model.OutputFlatPipeline
+import Genshi.Model.OutputPipelineFull
 namespace Genshi.Props.C09
 open Genshi Genshi.Output
 
@@ -317,6 +319,49 @@ example : flatten true (flatInit .xhtml)
      .end_ ⟨xhtmlNs, ['p']⟩] =
     some [.start ['p'] [(xmlns, xhtmlNs), (['x','m','l',':','l','a','n','g'], ['e','n'])], .empty ['b'] [],
           .empty ['i'] [(xmlns, [])], .end_ ['p']] := by decide
+
+/-! ### the whole serializer with the full flattener: total, every namespace construct -/
+
+/-- `render(cache=True) = render(cache=False)` for EVERY stream — any namespaces, prefixes,
+    START_NS / END_NS events, made-up declarations —, every method, `strip_whitespace` setting,
+    doctype option and `drop_xml_decl`: `renderFull` is the serializer with `EmptyTagFilter`,
+    `WhitespaceFilter`, the full `NamespaceFlattener` with its own cache (given the method's preferred
+    prefixes as extracted from the code), `DocTypeInserter` and the main loop with its cache. -/
+theorem render_full_cache_irrelevant (m : Method) (strip : Bool) (dt : Option DocTypeT) (dropd : Bool)
+    (s : Stream) :
+    renderFull m { strip := strip, cache := true, doctype := dt, dropXmlDecl := dropd } s =
+    renderFull m { strip := strip, cache := false, doctype := dt, dropXmlDecl := dropd } s := by
+  simp only [renderFull, filteredFull, flatten_cache_irrelevant_full, serCache_eq_serNoCache]
+
+theorem ofTF_ofF (x : Xml.FEv) : ofTF (Xml.TFEv.ofF x) = ofXF x := by
+  cases x <;> simp [ofTF, Xml.TFEv.ofF, ofXF, Xml.typedOfF, Function.comp_def]
+
+/-- `renderFull` extends `render`: wherever the lite-domain model of the whole serializer answers,
+    the full one gives the same text (so the theorems about `render` — strip, history, cache — are
+    theorems about `renderFull` on that domain).  Hypothesis as in `lite_flatten_is_xml_flatten`. -/
+theorem render_full_extends_render (m : Method) (cfg : Cfg) (s : Stream) (out : Str)
+    (hok : ∀ e ∈ preFlat m cfg.strip s, tagOk e = true) (h : render m cfg s = some out) :
+    renderFull m cfg s = out := by
+  simp only [render, chunks, filtered, Option.map_map] at h
+  cases hf : flatten cfg.cache (flatInit m) (preFlat m cfg.strip s) with
+  | none => simp [hf] at h
+  | some fs =>
+    simp only [hf, Option.map_some, Function.comp_apply, Option.some.injEq] at h
+    have hl := lite_flatten_is_xml_flatten m cfg.cache (prefOf m) _ fs hok hf
+    have hc := flatten_cached_is_xml_flatten (prefOf m) cfg.cache ((preFlat m cfg.strip s).map toX)
+    simp only [List.map_map] at hc
+    have hfun : (Xml.TXEv.ofX ∘ toX) = fun e => Xml.TXEv.ofX (toX e) := rfl
+    rw [hfun] at hc
+    simp only [renderFull, filteredFull, hc, List.map_map]
+    have hcomp : (ofTF ∘ Xml.TFEv.ofF) = ofXF := by funext x; exact ofTF_ofF x
+    rw [hcomp, hl]
+    exact h
+
+/-- outside the lite domain (`render` answers `none`): two prefixed namespaces, a re-bound prefix -/
+example : renderFull .xml { strip := false, cache := true }
+    [.startNs ['p'] ['u'], .start ⟨['u'], ['a']⟩ [], .start ⟨['v'], ['b']⟩ [(⟨['u'], ['k']⟩, ['1'])],
+     .end_ ⟨['v'], ['b']⟩, .end_ ⟨['u'], ['a']⟩, .endNs ['p']]
+    = "<p:a xmlns:p=\"u\"><b xmlns=\"v\" p:k=\"1\"/></p:a>".toList := by decide
 
 /-! ### what the constructors pass on (generated tables) -/
 
